@@ -26,6 +26,12 @@ duplicate-free chains.  Threads: a subscription takes effect at its publishing C
 multi-threaded run is the operation list ordered by those points; what the subscribing thread does *after* its CAS is the
 subject of the small `Pub` model at the end of this file.
 
+Every listener's emitter / callback awaiter holds a *weak* pointer: `conn l` says whether it denotes the shared state or
+nothing (default constructed emitter, emitter taken from / `connect` called on a moved-from `signal`, emitter assigned from
+such an emitter).  `emitter::operator=` (`assign`) copies only that weak pointer; it is modelled for an emitter nobody is
+suspended on (the listener is busy elsewhere) — assigning to an emitter a coroutine is suspended on is outside the model
+(`Res.bad`).  A second live signal is not modelled: "another state" is observably the same as "no state" for this signal.
+
 Ghost state (never consulted by the control flow): `got l` (what listener `l` observed, in order), `emitted`,
 `expect l` (for a coroutine: the values emitted / cancellations issued while it was waiting — the specification
 of what it has to observe), `subAt l`, `budget c`, `pure l` (has only ever re-awaited).
@@ -65,6 +71,7 @@ structure State where
   isCb : Nat → Bool := fun _ => false
   script : Nat → List Act := fun _ => []
   left : Nat → Nat := fun _ => 0
+  conn : Nat → Bool := fun _ => false   -- the weak pointer held by listener `l`'s emitter / callback awaiter: the shared state, or nothing
   -- ghost
   got : Nat → List Out := fun _ => []
   emitted : List Nat := []
@@ -77,6 +84,9 @@ inductive Op where
   | listen (sc : List Act)            -- start a coroutine listener: `co_await emitter`
   | listen0 (sc : List Act)           -- the same on a default-constructed (never connected) emitter
   | connect (n : Nat)                 -- `signal::connect(fn)`, fn answers `true` n times, then `false`
+  | connect0 (n : Nat)                -- `connect(fn)` on a moved-from `signal` object (no state): `initial_reg` finds nothing to lock
+  | assign (l : Nat) (b : Bool)       -- `emitter::operator=` on the emitter of listener `l` while `l` is busy elsewhere: it now
+                                      -- denotes the shared state (`true`: copy of a connected emitter) or nothing (`false`)
   | emit (byRef : Bool) (v : Nat)     -- collector call: by value / rvalue / emplace (`false`) or lvalue reference (`true`)
   | resume (l : Nat)                  -- the suspend point holding `l` is flushed as far as `l`: `l` is resumed
   | wake (l : Nat)                    -- the gated listener `l` finishes its other business and re-awaits
@@ -115,27 +125,47 @@ def reawait (s : State) (l : Nat) : State :=
     { s with got := upd s.got l (s.got l ++ [Out.canceled]), expect := upd s.expect l (s.expect l ++ [Out.canceled]) }
   else { s with chain := l :: s.chain }
 
+
+/-- `await_suspend` returns false, `await_resume` throws `await_canceled_exception` at once -/
+def cancelNow (s : State) (l : Nat) : State :=
+  { s with got := upd s.got l (s.got l ++ [Out.canceled]), expect := upd s.expect l (s.expect l ++ [Out.canceled]) }
+
+/-- `co_await emitter` in general: `_wk_state.lock()` fails when the emitter denotes no state (default constructed,
+assigned from such an emitter, obtained from a moved-from signal) or when the state is gone -/
+def await (s : State) (l : Nat) : State :=
+  if s.conn l = true then reawait s l else cancelNow s l
+
 /-- registers a new listener id with its static data -/
-def fresh (s : State) (cb : Bool) (sc : List Act) (n : Nat) (pr : Bool) : State :=
+def fresh (s : State) (cb : Bool) (sc : List Act) (n : Nat) (pr : Bool) (cn : Bool) : State :=
   { s with next := s.next + 1,
            isCb := upd s.isCb s.next cb, script := upd s.script s.next sc, left := upd s.left s.next n,
+           conn := upd s.conn s.next cn,
            got := upd s.got s.next [], expect := upd s.expect s.next [],
            subAt := upd s.subAt s.next s.emitted.length, budget := upd s.budget s.next n,
            pure := upd s.pure s.next pr }
 
 def stepListen (s : State) (sc : List Act) : State × Res :=
-  (reawait (fresh s false sc 0 true) s.next, Res.id s.next)
+  (reawait (fresh s false sc 0 true true) s.next, Res.id s.next)
 
 /-- an emitter without state: `await_suspend` returns false, `await_resume` throws -/
 def stepListen0 (s : State) (sc : List Act) : State × Res :=
-  ({ fresh s false sc 0 false with got := upd (fresh s false sc 0 false).got s.next [Out.canceled],
-                                    expect := upd (fresh s false sc 0 false).expect s.next [Out.canceled] },
-   Res.id s.next)
+  (cancelNow (fresh s false sc 0 false false) s.next, Res.id s.next)
 
 /-- `connect` needs a `signal` object, hence a live state (signal.h:261-312, `initial_reg`) -/
 def stepConnect (s : State) (n : Nat) : State × Res :=
   if s.handles = 0 then (s, Res.bad)
-  else ({ fresh s true [] n false with chain := s.next :: s.chain }, Res.id s.next)
+  else ({ fresh s true [] n false true with chain := s.next :: s.chain }, Res.id s.next)
+
+/-- `connect` on a `signal` object without state (moved-from): `initial_reg` cannot lock the weak pointer and calls
+`resume()`, which deletes the awaiter (signal.h:298-305, 276-280): the callback is released at once and never called -/
+def stepConnect0 (s : State) (n : Nat) : State × Res :=
+  ({ fresh s true [] n false false with got := upd (fresh s true [] n false false).got s.next [Out.free] }, Res.id s.next)
+
+/-- `emitter::operator=` (signal.h:179-184): only the weak pointer is copied; the awaiter part (`_next`, the handle) is
+not.  Precondition: no coroutine is suspended on the assigned-to emitter (`l` is busy elsewhere); the emitter holds no
+strong reference, so neither the state it denoted before nor the one it denotes now is affected. -/
+def stepAssign (s : State) (l : Nat) (b : Bool) : State × Res :=
+  if l ∈ s.gated then ({ s with conn := upd s.conn l b }, Res.unit) else (s, Res.bad)
 
 /-- the callbacks / the coroutines of a detached chain -/
 def cbsOf (s : State) : List Nat := s.chain.filter (fun l => s.isCb l)
@@ -164,8 +194,8 @@ def stepEmit (s : State) (byRef : Bool) (v : Nat) : State × Res :=
 /-- what a resumed coroutine does with a value, according to its script -/
 def afterValue (s : State) (l : Nat) : State :=
   match s.script l with
-  | [] => reawait s l
-  | Act.re :: rest => reawait { s with script := upd s.script l rest } l
+  | [] => await s l
+  | Act.re :: rest => await { s with script := upd s.script l rest } l
   | Act.gate :: rest => { s with script := upd s.script l rest, gated := l :: s.gated, pure := upd s.pure l false }
   | Act.exit :: rest => { s with script := upd s.script l rest, pure := upd s.pure l false }
 
@@ -178,7 +208,7 @@ def stepResume (s : State) (l : Nat) : State × Res :=
   else (s, Res.bad)
 
 def stepWake (s : State) (l : Nat) : State × Res :=
-  if l ∈ s.gated then (reawait { s with gated := s.gated.erase l } l, Res.unit)
+  if l ∈ s.gated then (await { s with gated := s.gated.erase l } l, Res.unit)
   else (s, Res.bad)
 
 def stepAdd (s : State) : State × Res :=
@@ -202,6 +232,8 @@ def step (s : State) (op : Op) : State × Res :=
   | Op.listen sc => stepListen s sc
   | Op.listen0 sc => stepListen0 s sc
   | Op.connect n => stepConnect s n
+  | Op.connect0 n => stepConnect0 s n
+  | Op.assign l b => stepAssign s l b
   | Op.emit r v => stepEmit s r v
   | Op.resume l => stepResume s l
   | Op.wake l => stepWake s l
